@@ -17,6 +17,7 @@ pub mod c04;
 pub mod c05;
 pub mod c09;
 pub mod c10;
+pub mod c11;
 pub mod c12;
 pub mod c13;
 pub mod c15;
@@ -281,6 +282,7 @@ pub fn dispatch(cfg: &RunCfg, rep: &mut Report) -> bool {
         "C05" => c05::run(cfg, rep),
         "C09" => c09::run(cfg, rep),
         "C10" => c10::run(cfg, rep),
+        "C11" => c11::run(cfg, rep),
         "C12" => c12::run(cfg, rep),
         "C13" => c13::run(cfg, rep),
         "C15" => c15::run(cfg, rep),
